@@ -1,4 +1,7 @@
 import Infretis.Lemmas.Vel
+import Infretis.Lemmas.VelRoute
+import Infretis.Lemmas.VelProj
+import Infretis.Lemmas.VelFlow
 import Mathlib.Tactic.NormNum
 import Mathlib.Algebra.Order.AbsoluteValue.Basic
 /-!
@@ -17,6 +20,16 @@ Both are `Variant` switches of the model: `asIs` mirrors the code before the fix
 counterexamples stay here as the record), `repaired` = `codeVariant` mirrors the code now; the
 headline theorems `dek_consistent_all`, `kinNew_consistent_all`, `request_on_engine_stream_all`
 hold for all five engines with `codeVariant`.
+
+`_partial`s: `dek_consistent_ase_partial` and `request_on_engine_stream_partial` predate the ASE fixes (1dd0318,
+6c06a2f).  For the code as it is now (`codeVariant = .repaired`) both are SUPERSEDED by the unguarded `_all`
+statements (`dek_consistent_all`, `kinNew_consistent_all`, `request_on_engine_stream_all`, which are proved from
+them by discharging the guard with `codeVariant`); they stay as the exact record of the guard under which the
+pre-fix code was right, next to their `_counterexample`s.  Nothing is missing for the current code.
+
+Extension pass (§8–§11): settings routing through the moves (`Model/VelRoute.lean`), the degrees-of-freedom
+statement under the zero-momentum projection (`Lemmas/VelProj.lean`), the helpers' remaining branches, and the
+per-engine file flow (`Model/VelFlow.lean`).
 -/
 namespace Infretis.C16
 open Infretis.Vel
@@ -560,5 +573,484 @@ theorem request_on_engine_stream_all (vk : Variant) (s : Setup) (src : Frame) (e
 
 example : (modifyVelocities .asIs codeVariant aseWitnessSetup aseWitnessSrc none none [1, 1] []).request.stream
     = Stream.engineRgen := rfl
+
+/-! ## 8. settings routing: what the MOVES hand to `modify_velocities`
+
+`tis_set` doubles as `vel_settings`; `prepare_shooting_point` (the only call site of `modify_velocities`)
+passes `ens_set["tis_set"]`.  Model: `Infretis/Model/VelRoute.lean` (`routeSettings`, `wfSubSettings`, `nJumps`,
+`moveRegenerations`).  The statements below are about the dicts the engine SEES on every route, not about a
+direct call of `modify_velocities`. -/
+section Routing
+open Infretis.VelRoute
+
+/-- **Wire fencing's sub-move settings.** The two in-place writes (`allowmaxlength = True`, `maxlength` := itself)
+    leave every other configured key — `zero_momentum` and anything else an engine may read — with its configured
+    value; no key is lost.  (As the code is, the dict is the ensemble's own `tis_set`, which therefore carries
+    `allowmaxlength = True` from the first wire-fencing move on.) -/
+theorem wf_sub_settings_keep_configured (ts d : Settings) (h : wfSubSettings ts = .ok d) :
+    (∀ k, k ≠ "allowmaxlength" → getKey d k = getKey ts k)
+    ∧ getKey d "allowmaxlength" = some (.bool true)
+    ∧ getKey d "maxlength" = getKey ts "maxlength" :=
+  ⟨(wfSubSettings_getKey ts d h).1, (wfSubSettings_getKey ts d h).2,
+   (wfSubSettings_getKey ts d h).1 "maxlength" (by decide)⟩
+
+example : wfSubSettings [("maxlength", .int 60), ("allowmaxlength", .bool false), ("zero_momentum", .bool true),
+      ("n_jumps", .int 3)]
+    = .ok [("maxlength", .int 60), ("allowmaxlength", .bool true), ("zero_momentum", .bool true),
+      ("n_jumps", .int 3)] := by decide
+
+/-- **The engine sees the configured settings on every route.** For `shoot` the dict handed to
+    `modify_velocities` IS the ensemble's `tis_set`; for every wire-fencing sub-shoot it agrees with the configured
+    `tis_set` on every key but `allowmaxlength`; the zero swaps hand nothing (no regeneration). -/
+theorem route_settings_eq_configured (mv : Move) (ts : Settings) (hasSeg : Bool) (r : Routed)
+    (h : routeSettings mv ts hasSeg = .ok r) :
+    (∀ d ∈ r.calls, ∀ k, k ≠ "allowmaxlength" → getKey d k = getKey ts k)
+    ∧ (mv = .sh → r.calls = [ts] ∧ r.tisSetAfter = ts)
+    ∧ (mv = .zeroSwap → r.calls = [] ∧ r.tisSetAfter = ts) := by
+  refine ⟨routeSettings_getKey mv ts hasSeg r h, ?_, ?_⟩
+  · intro hmv
+    subst hmv
+    simp only [routeSettings] at h
+    split at h
+    · cases h
+    · cases h; exact ⟨rfl, rfl⟩
+  · intro hmv
+    subst hmv
+    simp only [routeSettings] at h
+    split at h
+    · cases h
+    · cases h; exact ⟨rfl, rfl⟩
+
+example : ∃ r, routeSettings .wf [("maxlength", .int 60), ("zero_momentum", .bool true)] true = .ok r
+    ∧ r.calls.length = 2 := ⟨_, rfl, rfl⟩
+
+/-- **Every key an engine reads, and the flag in effect, are the configured ones on every route** — for each of the
+    five engines, whatever its own default. -/
+theorem route_flag_eq_configured (mv : Move) (ts : Settings) (hasSeg : Bool) (r : Routed)
+    (h : routeSettings mv ts hasSeg = .ok r) (e : Engine) :
+    ∀ d ∈ r.calls, (∀ k ∈ readKeys e, getKey d k = getKey ts k)
+      ∧ zmEntry d = zmEntry ts
+      ∧ effectiveZeroMomentum e d = effectiveZeroMomentum e ts
+      ∧ gmxOwnGenvelRefuses d = gmxOwnGenvelRefuses ts := by
+  intro d hd
+  have hk := routeSettings_getKey mv ts hasSeg r h d hd "zero_momentum" (by decide)
+  refine ⟨?_, zmEntry_congr d ts hk, ?_, ?_⟩
+  · intro k hkr
+    simp only [readKeys, List.mem_singleton] at hkr
+    subst hkr
+    exact hk
+  · simp [effectiveZeroMomentum, zmEntry_congr d ts hk]
+  · simp [gmxOwnGenvelRefuses, hk]
+
+example : effectiveZeroMomentum .turtlemd [("maxlength", .int 60), ("zero_momentum", .bool true)] = true
+    ∧ effectiveZeroMomentum .cp2k [("maxlength", .int 60), ("zero_momentum", .int 0)] = false
+    -- a fresh dict holding only the two keys wire fencing writes would fall back to the engine defaults:
+    ∧ effectiveZeroMomentum .turtlemd [("allowmaxlength", .bool true), ("maxlength", .int 60)] = false
+    ∧ effectiveZeroMomentum .cp2k [("allowmaxlength", .bool true), ("maxlength", .int 60)] = true := by decide
+
+/-- **How many regenerations a move makes.** `shoot`: one; wire fencing with a segment: `n_jumps` (2 when the key is
+    absent; `True` counts as 1, a negative integer as 0); wire fencing without a segment and the zero swaps: none. -/
+theorem route_call_count (ts : Settings) (r : Routed) :
+    (routeSettings .sh ts hs = .ok r → r.calls.length = 1)
+    ∧ (routeSettings .wf ts true = .ok r → ∃ n, nJumps ts = .ok n ∧ r.calls.length = n)
+    ∧ (routeSettings .wf ts false = .ok r → r.calls = [])
+    ∧ (routeSettings .zeroSwap ts hs = .ok r → r.calls = []) := by
+  refine ⟨?_, ?_, ?_, ?_⟩
+  · intro h
+    simp only [routeSettings] at h
+    split at h
+    · cases h
+    · cases h; rfl
+  · intro h
+    simp only [routeSettings] at h
+    split at h
+    · rename_i hc; simp at hc
+    · split at h
+      · cases h
+      · split at h
+        · cases h
+        · rename_i n hn
+          cases h
+          exact ⟨n, hn, by simp⟩
+  · intro h
+    simp only [routeSettings] at h
+    split at h
+    · cases h; rfl
+    · rename_i hc; simp at hc
+  · intro h
+    simp only [routeSettings] at h
+    split at h
+    · cases h
+    · cases h; rfl
+
+example : nJumps [("n_jumps", .bool true)] = .ok 1 ∧ nJumps [] = .ok 2 ∧ nJumps [("n_jumps", .int (-3))] = .ok 0
+    ∧ nJumps [("n_jumps", .float 3)] = .error (.typeError "range:float") := by decide
+
+/-- a move raises before any regeneration exactly when `maxlength` is missing (KeyError) or, for wire fencing with
+    a segment, `n_jumps` is not an integer (TypeError from `range`) -/
+theorem route_error_iff (mv : Move) (ts : Settings) (hasSeg : Bool) :
+    (∃ e, routeSettings mv ts hasSeg = .error e) ↔
+      ((mv ≠ .wf ∨ hasSeg = true) ∧ getKey ts "maxlength" = none)
+      ∨ (mv = .wf ∧ hasSeg = true ∧ ∃ e, nJumps ts = .error e) := by
+  have hne : ("maxlength" : String) ≠ "allowmaxlength" := by decide
+  cases mv <;> cases hasSeg <;> cases hm : getKey ts "maxlength" <;> cases hn : nJumps ts <;>
+    simp [routeSettings, wfSubSettings, getKey_setKey_ne _ _ _ _ hne, hm, hn]
+
+example : routeSettings .sh [("zero_momentum", .bool true)] false = .error (.keyError "maxlength") := by decide
+
+/-- **End to end: every regeneration of a move uses the configured flag.** The velocity regenerations of a whole
+    move (`moveRegenerations`: route, then `modify_velocities` per call with the flag read from the dict that call
+    was handed) are exactly `modify_velocities` with the CONFIGURED `tis_set`'s entry, once per routed call. -/
+theorem move_regenerations_use_configured (vk vr : Variant) (s : Setup) (mv : Move) (ts : Settings)
+    (hasSeg : Bool) (inputs : List CallInput) (rs : List Result)
+    (h : moveRegenerations vk vr s mv ts hasSeg inputs = .ok rs) :
+    ∃ r, routeSettings mv ts hasSeg = .ok r
+      ∧ rs = (inputs.take r.calls.length).map
+               (fun i => modifyVelocities vk vr s i.src i.sysEkin (zmEntry ts) i.sig i.z) := by
+  unfold moveRegenerations at h
+  split at h
+  · cases h
+  · rename_i r hr
+    cases h
+    refine ⟨r, hr, regenerate_eq_map vk vr s ts r.calls inputs ?_⟩
+    intro d hd
+    have := (route_flag_eq_configured mv ts hasSeg r hr s.engine d hd).2.2.1
+    simpa [effectiveZeroMomentum] using this
+
+/-- **Zero momentum iff requested, on every route.** For every regenerated shooting point of a `shoot` or
+    wire-fencing move (any number of jumps), in every engine:
+    * if the configured `tis_set` requests zero momentum (entry truthy, or absent with CP2K's default), the written
+      velocities carry no total momentum;
+    * if it does not (entry falsy, or absent with the other engines' default), the written velocities are the
+      untouched Gaussian draw `σ·z` (LAMMPS: divided by `scale`) — nothing is projected out. -/
+theorem move_zero_momentum_iff_requested (vk vr : Variant) (s : Setup) (mv : Move) (ts : Settings)
+    (hasSeg : Bool) (inputs : List CallInput) (rs : List Result)
+    (h : moveRegenerations vk vr s mv ts hasSeg inputs = .ok rs)
+    (hne : mass s ≠ []) (hpos : ∀ m ∈ mass s, 0 < m)
+    (hshape : ∀ i ∈ inputs, i.sig.length = (mass s).length ∧ ∀ col ∈ i.z, col.length = (mass s).length) :
+    ∀ r ∈ rs,
+      (effectiveZeroMomentum s.engine ts = true →
+        momentum (mass s) r.frame.vel = r.frame.vel.map (fun _ => 0))
+      ∧ (effectiveZeroMomentum s.engine ts = false → s.engine ≠ .ase →
+        ∃ i ∈ inputs, r.frame.vel =
+          if s.engine = .lammps then (drawVel i.sig i.z).map (fun col => col.map (fun v => v / lammpsScale))
+          else drawVel i.sig i.z) := by
+  obtain ⟨rt, _, hrs⟩ := move_regenerations_use_configured vk vr s mv ts hasSeg inputs rs h
+  intro r hr
+  rw [hrs, List.mem_map] at hr
+  obtain ⟨i, hi, rfl⟩ := hr
+  have hi' : i ∈ inputs := List.mem_of_mem_take hi
+  constructor
+  · intro hflag
+    exact modify_zero_momentum vk vr s i.src i.sysEkin (zmEntry ts) i.sig i.z hflag hne hpos
+      (hshape i hi').1 (hshape i hi').2
+  · intro hflag hase
+    exact ⟨i, hi', vel_eq_sigma_z s i.src i.sysEkin i.sig i.z hflag hase⟩
+
+example : ∃ rs, moveRegenerations codeVariant codeVariant
+      { engine := .turtlemd, temperature := 300, boltzmann := 1, massIn := [1, 3] } .wf
+      [("maxlength", .int 60), ("zero_momentum", .bool true), ("n_jumps", .int 2)] true
+      [⟨aseWitnessSrc, none, [1, 1], [[1, 0], [0, 0], [0, 0]]⟩, ⟨aseWitnessSrc, none, [1, 2], [[0, 1], [1, 0], [0, 0]]⟩]
+    = .ok rs ∧ rs.length = 2 := ⟨_, rfl, rfl⟩
+
+end Routing
+
+/-! ## 9. degrees of freedom: what the zero-momentum projection leaves of `⟨m v²⟩ = k_BT`
+
+The draw gives independent components with variance `σₖ² = k_BT/mₖ` (§1).  `reset_momentum` is the linear map
+`v'ᵢ = Σₖ (δᵢₖ − mₖ/M) vₖ` on every Cartesian column; the variance of a linear combination of independent variables
+is `Σₖ cᵢₖ² σₖ²` (probability theory, outside the model like the Gaussian itself; `quadForm` is that sum).
+As the code is (no rescaling after the projection — ase_engine.py says so: `preserve_temperature=False`, "the other
+engines do not bother"): without zero momentum every component has variance `k_BT/m` (3N degrees of freedom with
+`⟨m v²⟩ = k_BT` each); with zero momentum component `i` has variance `(1 − mᵢ/M)·k_BT/mᵢ` and each Cartesian
+direction carries `(N−1)·k_BT`: `⟨Σ m v²⟩ = k_BT` per REMAINING degree of freedom (3N−3), not per component. -/
+section DegreesOfFreedom
+
+/-- **`reset_momentum` is the projection `v'ᵢ = Σₖ (δᵢₖ − mₖ/M)·vₖ`**, entry by entry. -/
+theorem reset_momentum_is_projection (ms col : List Rat) (i : Nat) (ci : Rat)
+    (hlen : col.length = ms.length) (hci : col[i]? = some ci) :
+    (resetCol ms col)[i]? = some (dot (coeffRow (sumL ms) ms i) col)
+    ∧ dot (coeffRow (sumL ms) ms i) col = ci - dot ms col / sumL ms :=
+  ⟨resetCol_getElem? ms col i ci hlen hci, dot_coeffRow (sumL ms) ms col i ci hlen hci⟩
+
+example : (resetCol [1, 3] [2, -1])[0]? = some (dot (coeffRow 4 [1, 3] 0) [2, -1])
+    ∧ dot (coeffRow 4 [1, 3] 0) [2, -1] = 9 / 4 := by
+  norm_num [resetCol, coeffRow, dot, sumL]
+
+/-- **Variance after the projection.** With component variances `k_BT/mₖ`, the `i`-th projected component has
+    variance `Σₖ (δᵢₖ − mₖ/M)²·k_BT/mₖ = k_BT·(1/mᵢ − 1/M) = (1 − mᵢ/M)·k_BT/mᵢ` — exact, for any masses. -/
+theorem projected_component_variance (kT : Rat) (ms : List Rat) (i : Nat) (mi : Rat)
+    (hm : ∀ m ∈ ms, m ≠ 0) (hM : sumL ms ≠ 0) (hmi : ms[i]? = some mi) :
+    quadForm (coeffRow (sumL ms) ms i) (ms.map (fun m => kT / m)) = kT * (1 / mi - 1 / sumL ms)
+    ∧ kT * (1 / mi - 1 / sumL ms) = (1 - mi / sumL ms) * (kT / mi) := by
+  have hmi0 : mi ≠ 0 := hm mi (List.mem_of_getElem? hmi)
+  constructor
+  · rw [quadForm_coeffRow kT (sumL ms) hM ms i mi hm hmi]
+    field_simp
+    ring
+  · field_simp
+
+example : quadForm (coeffRow 4 [1, 3] 0) ([1, 3].map (fun m => (2 : Rat) / m)) = 2 * (1 / 1 - 1 / 4) := by
+  norm_num [quadForm, coeffRow, mulCol, dot]
+
+/-- **`⟨m v²⟩` per direction after the projection: `(N−1)·k_BT`.** Summed over the atoms, mass × variance of one
+    Cartesian direction is `(N − 1)·k_BT`: the projection removes exactly one degree of freedom per direction and
+    the remaining ones carry `k_BT` each (equipartition over 3N−3 degrees of freedom, no rescaling needed). -/
+theorem projected_mv2_per_direction (kT : Rat) (ms : List Rat) (hm : ∀ m ∈ ms, m ≠ 0) (hM : sumL ms ≠ 0) :
+    sumL (ms.map (fun m => m * (kT * (1 / m - 1 / sumL ms)))) = (ms.length - 1) * kT := by
+  rw [sumL_mass_times_var kT (sumL ms) ms hm]
+  field_simp
+
+example : sumL ([1, 3].map (fun m => m * ((2 : Rat) * (1 / m - 1 / sumL [1, 3])))) = (2 - 1) * 2 := by
+  norm_num [sumL]
+
+/-- **The literal per-component reading fails under zero momentum** (positive masses, `k_BT > 0`): every projected
+    component has variance strictly below `k_BT/mᵢ`; for a single atom it is 0.  So "variance `k_BT/m` for each
+    component" and "zero total momentum" exclude each other — the property's `⟨m v²⟩ = k_BT` holds per degree of
+    freedom (previous theorem), per component only when zero momentum is off (`vel_eq_sigma_z`). -/
+theorem projected_variance_lt_unprojected (kT : Rat) (hkT : 0 < kT) (ms : List Rat) (i : Nat) (mi : Rat)
+    (hpos : ∀ m ∈ ms, 0 < m) (hne : ms ≠ []) (hmi : ms[i]? = some mi) :
+    kT * (1 / mi - 1 / sumL ms) < kT / mi
+    ∧ (ms = [mi] → kT * (1 / mi - 1 / sumL ms) = 0) := by
+  have hM : 0 < sumL ms := sumL_pos ms hne hpos
+  have hmi0 : 0 < mi := hpos mi (List.mem_of_getElem? hmi)
+  constructor
+  · have : 0 < kT * (1 / sumL ms) := mul_pos hkT (one_div_pos.mpr hM)
+    have e : kT * (1 / mi - 1 / sumL ms) = kT / mi - kT * (1 / sumL ms) := by ring
+    rw [e]
+    linarith
+  · intro h
+    subst h
+    simp [sumL]
+
+example : (2 : Rat) * (1 / 1 - 1 / sumL [1, 3]) < 2 / 1 := by norm_num [sumL]
+
+end DegreesOfFreedom
+
+/-! ## 10. the helpers' remaining branches (`kinetic_energy` for one atom, `sigma_v` argument, missing `rgen`) -/
+section Helpers
+
+/-- **`kinetic_energy` as written equals the trace formula on every shape the engines use**, including its
+    `len(mass) == 1` branch (`np.outer` of the flattened arrays) for a one-atom system. -/
+theorem kineticEnergyCode_eq (ms : List Rat) (vel : List (List Rat))
+    (hshape : ∀ col ∈ vel, col.length = ms.length) :
+    kineticEnergyCode ms vel = kineticEnergy ms vel := by
+  unfold kineticEnergyCode
+  split
+  · rename_i h1
+    obtain ⟨m, rfl⟩ := List.length_eq_one_iff.mp h1
+    unfold kineticEnergy
+    induction vel with
+    | nil => simp [dot, sumL]
+    | cons col rest ih =>
+      have hc : col.length = 1 := by simpa using hshape col (by simp)
+      obtain ⟨v, rfl⟩ := List.length_eq_one_iff.mp hc
+      have ih' := ih (fun c hcm => hshape c (by simp [hcm]))
+      simp only [List.map_cons, List.flatten_cons, mulCol, List.singleton_append, dot, sumL, kinCol] at ih' ⊢
+      rw [← ih']
+      ring
+  · rfl
+
+example : kineticEnergyCode [2] [[1], [0], [3]] = 10 ∧ kineticEnergyCode [1, 2] [[1, 1], [0, 2]] = 11 / 2 := by
+  norm_num [kineticEnergyCode, kineticEnergy, kinCol, dot, mulCol, sumL]
+
+/-- **The `sigma_v` argument.** `None` or any negative entry → the scale is estimated, `σᵢ² = (1/β)(1/mᵢ)`; an
+    explicit non-negative `sigma_v` (also all zeros) is used as given; without `rgen` the call raises and makes no
+    request; with it there is one request, `normal` with location 0 on the engine's stream. -/
+theorem draw_maxwellian_rule (bet : Rat) (ms : List Rat) (sv : List Rat) (npart dim : Nat) :
+    drawScaleSq bet ms none = sigmaSq bet ms
+    ∧ ((∀ x ∈ sv, 0 ≤ x) → drawScaleSq bet ms (some sv) = sv.map (fun x => x * x))
+    ∧ ((∃ x ∈ sv, x < 0) → drawScaleSq bet ms (some sv) = sigmaSq bet ms)
+    ∧ drawMaxwellian false bet ms (some sv) npart dim = .error .noRgen
+    ∧ drawMaxwellian true bet ms none npart dim
+        = .ok { stream := .engineRgen, method := "normal", loc := 0, scaleSq := some (sigmaSq bet ms),
+                npart := npart, dim := dim } := by
+  refine ⟨rfl, ?_, ?_, rfl, rfl⟩
+  · intro h
+    have : sv.any (fun x => decide (x < 0)) = false := by
+      rw [List.any_eq_false]
+      intro x hx
+      simpa using h x hx
+    simp [drawScaleSq, this]
+  · intro ⟨x, hx, hneg⟩
+    have : sv.any (fun x => decide (x < 0)) = true := by
+      rw [List.any_eq_true]
+      exact ⟨x, hx, by simpa using hneg⟩
+    simp [drawScaleSq, this]
+
+example : drawScaleSq 2 [1, 4] (some [0, 0]) = [0, 0] ∧ drawScaleSq 2 [1, 4] (some [1, -1]) = [1 / 2, 1 / 8] := by
+  norm_num [drawScaleSq, sigmaSq]
+
+/-- the request of `modify_velocities` (four numpy engines) IS `draw_maxwellian_velocities` with `sigma_v=None` on
+    an engine that has its `rgen` -/
+theorem modify_request_is_draw_maxwellian (vk vr : Variant) (s : Setup) (src : Frame) (e : Option Rat)
+    (zm : Option Bool) (sig : List Rat) (z : List (List Rat)) (hne : s.engine ≠ .ase) :
+    drawMaxwellian true (beta s) (mass s) none (mass s).length src.vel.length
+      = .ok (modifyVelocities vk vr s src e zm sig z).request := by
+  rw [request_on_engine_stream vk vr s src e zm sig z hne]
+  rfl
+
+/-- **CP2K masses.** `guess_particle_mass` refuses exactly the element names that are not in the table and otherwise
+    gives the table mass times the conversion factor; the engine's mass vector (`Vel.mass`) is that, atom by atom. -/
+theorem guess_particle_mass_rule (tbl : List Rat) (T b : Rat) (tb : List Rat) :
+    guessParticleMass none = .error .unknownElement
+    ∧ (∀ m, guessParticleMass (some m) = .ok (cp2kMassFactor * m))
+    ∧ (mass ⟨.cp2k, T, b, tbl, tb⟩).map Except.ok
+        = tbl.map (fun m => (guessParticleMass (some m) : Except MassErr Rat)) := by
+  refine ⟨rfl, fun _ => rfl, ?_⟩
+  simp [mass, guessParticleMass, List.map_map, Function.comp_def]
+
+example : guessParticleMass (some 1) = .ok (18228884858012982 / 10000000000000) := by
+  simp [guessParticleMass, cp2kMassFactor]
+
+end Helpers
+
+/-! ## 11. the file flow, engine by engine: which frame is read, what is written, what stays
+
+Model: `Infretis/Model/VelFlow.lean` (`extractFrame`, `readConf`, `dumpFrameE`, `prepareShootingPointE`): each
+engine's own `_extract_frame` / first read, quirks included.  §6 (`source_frame_untouched`) is the same statement for
+the engine-blind `Vel.dumpFrame`; here it is proved for what every engine really does with its files. -/
+section FileFlow
+open Infretis.VelFlow
+
+/-- **Never alters the frame it was taken from — every engine.** `prepare_shooting_point` with the engine's own file
+    flow leaves every pre-existing `System` object, every referenced array and every file other than
+    `exe_dir/conf.<ext>` and `exe_dir/genvel.<ext>` as they were (in particular the trajectory file the shooting point
+    lives in: same frames, whatever the frame index and `vel_rev`); the returned copy points to frame 0 of
+    `genvel.<ext>`, keeps `vel_rev` (nothing is reversed before or after the regeneration: `kin_old` is taken from the
+    stored velocities, whose sign does not matter), `temperature`, `vpot`; and `genvel.<ext>` holds ONE frame with the
+    positions and identities of the frame that was read, and its box when it has one. -/
+theorem source_untouched_every_engine (vk vr : Variant) (s : Setup) (g : GmxSrc) (top : List Nat) (h : Heap)
+    (a conf genvel : Nat) (zm : Option Bool) (sig : List Rat) (z : List (List Rat)) (newOrder : List Rat)
+    (sh : ShootE)
+    (hok : prepareShootingPointE vk vr s g top h a conf genvel zm sig z newOrder = .ok sh) :
+    (∀ i, i < h.systems.length → sh.heap.systems[i]? = h.systems[i]?)
+    ∧ (∀ i, i < h.objs.length → sh.heap.objs[i]? = h.objs[i]?)
+    ∧ (∀ f, f ≠ conf → f ≠ genvel → sh.heap.readFile f = h.readFile f)
+    ∧ sh.copy = h.systems.length
+    ∧ (∃ sp sp', h.systems[a]? = some sp ∧ sh.heap.systems[sh.copy]? = some sp'
+        ∧ sp'.temperature = sp.temperature ∧ sp'.velRev = sp.velRev ∧ sp'.vpot = sp.vpot
+        ∧ sp'.config = (genvel, some 0))
+    ∧ (∃ fw, sh.heap.readFile genvel = some [fw] ∧ fw.pos = sh.readFrame.pos ∧ fw.ids = sh.readFrame.ids
+        ∧ ∀ b, sh.readFrame.box = some b → fw.box = some b) := by
+  unfold prepareShootingPointE at hok
+  split at hok
+  · cases hok
+  · rename_i sp hsp
+    simp only at hok
+    split at hok
+    · cases hok
+    · rename_i h2 fr hd
+      have ⟨hs2, ho2, hf2⟩ := dumpFrameE_effect _ _ _ _ _ _ _ _ hd
+      cases hok
+      have hpres := positions_box_ids_preserved vk vr s fr sp.ekin zm sig z
+      refine ⟨?_, ?_, ?_, rfl, ⟨sp, _, hsp, List.getElem?_concat_length, rfl, rfl, rfl, rfl⟩,
+              ⟨_, ?_, hpres.1, hpres.2.1, hpres.2.2.1⟩⟩
+      · intro i hi
+        simp [List.getElem?_append_left hi]
+      · intro i hi
+        simp only [Heap.writeFile, ho2]
+        simp [List.getElem?_append_left hi]
+      · intro f hfc hfg
+        change (h2.writeFile genvel _).readFile f = h.readFile f
+        rw [readFile_writeFile_ne _ f genvel _ hfg, hf2 f hfc]
+        rfl
+      · change (h2.writeFile genvel _).readFile genvel = _
+        rw [readFile_writeFile_self]
+
+/-- **The regeneration starts from the requested frame — every engine, any index that is in the file.** With the
+    shooting point at `(src, i)`, `src` a file other than `conf.<ext>`/`genvel.<ext>` holding frame `fr` at index `i`
+    (also `i > 0`, also `vel_rev = True`), the frame read is `fr` (GROMACS from a `.trr`: with the topology's
+    identities), `genvel.<ext>` gets its positions/identities/box, and `src` still holds the same frames. -/
+theorem regenerates_requested_frame (vk vr : Variant) (s : Setup) (g : GmxSrc) (top : List Nat) (h : Heap)
+    (a src i conf genvel : Nat) (sp : Sys) (frames : List Frame) (fr : Frame)
+    (zm : Option Bool) (sig : List Rat) (z : List (List Rat)) (newOrder : List Rat)
+    (hsp : h.systems[a]? = some sp) (hcfg : sp.config = (src, some i))
+    (hsrc : h.readFile src = some frames) (hfr : frames[i]? = some fr)
+    (hsc : src ≠ conf) (hsg : src ≠ genvel)
+    (hg : s.engine = .gromacs → g = .trr ∨ (g = .g96 ∧ frames = [fr])) :
+    ∃ sh, prepareShootingPointE vk vr s g top h a conf genvel zm sig z newOrder = .ok sh
+      ∧ sh.readFrame = (if s.engine = .gromacs ∧ g = .trr then { fr with ids := top } else fr)
+      ∧ sh.heap.readFile src = some frames := by
+  have hg' : s.engine = .gromacs → g = .trr ∨ (g = .g96 ∧ frames = [fr] ∧ src ≠ conf) := by
+    intro he
+    rcases hg he with h1 | ⟨h1, h2⟩
+    · exact Or.inl h1
+    · exact Or.inr ⟨h1, h2, hsc⟩
+  let h1 : Heap := { h with systems := h.systems ++ [sp] }
+  have hsrc1 : h1.readFile src = some frames := hsrc
+  obtain ⟨h2, hd, _⟩ := dumpFrameE_in_range s.engine g top h1 src i conf frames fr hsrc1 hfr hg'
+  have hd' : dumpFrameE s.engine g top h1 sp.config conf
+      = .ok (h2, if s.engine = .gromacs ∧ g = .trr then { fr with ids := top } else fr) := by
+    rw [hcfg]; exact hd
+  have hstep : ∃ sh, prepareShootingPointE vk vr s g top h a conf genvel zm sig z newOrder = .ok sh
+      ∧ sh.readFrame = (if s.engine = .gromacs ∧ g = .trr then { fr with ids := top } else fr) := by
+    unfold prepareShootingPointE
+    simp only [hsp]
+    rw [hd']
+    exact ⟨_, rfl, rfl⟩
+  obtain ⟨sh, hok, hrf⟩ := hstep
+  refine ⟨sh, hok, hrf, ?_⟩
+  rw [(source_untouched_every_engine vk vr s g top h a conf genvel zm sig z newOrder sh hok).2.2.1 src hsc hsg]
+  exact hsrc
+
+example : ∃ sh, prepareShootingPointE codeVariant codeVariant aseWitnessSetup .g96 []
+    { systems := [⟨(7, some 1), 0, 1, 1, 1, 1, true, none, none⟩], objs := [[5], []],
+      files := [(7, [{ aseWitnessSrc with ids := [2, 2] }, aseWitnessSrc])] } 0 100 101 (some true) [1, 1]
+      [[1, 0], [0, 0], [0, 0]] [3] = .ok sh ∧ sh.readFrame = aseWitnessSrc := ⟨_, rfl, rfl⟩
+
+/-- index `None` (a single-frame configuration file, e.g. the initial configuration): every engine regenerates from
+    that frame, whether or not the file already is `conf.<ext>` -/
+theorem regenerates_single_frame_file (e : Engine) (g : GmxSrc) (top : List Nat) (h : Heap) (src conf : Nat)
+    (fr : Frame) (hsrc : h.readFile src = some [fr]) :
+    ∃ h2, dumpFrameE e g top h (src, none) conf = .ok (h2, fr) :=
+  dumpFrameE_none_single e g top h src conf fr hsrc
+
+/-- **What the engines do with an index that is NOT in the file** (as the code is; not reachable through a path's own
+    phase points): CP2K and TurtleMD only log an error and then regenerate from the frame an EARLIER call left in
+    `conf.xyz` (here frame `stale`, of another file) — FileNotFoundError when there is none; LAMMPS and ASE raise
+    IndexError, GROMACS ValueError for a `.trr`; a GROMACS `.g96` is copied whole whatever the index. -/
+theorem missing_index_behaviour (fr stale : Frame) (i : Nat) (hi : 1 ≤ i) :
+    let h : Heap := { systems := [], objs := [], files := [(7, [fr]), (100, [stale])] }
+    let h0 : Heap := { systems := [], objs := [], files := [(7, [fr])] }
+    dumpFrameE .cp2k .other [] h (7, some i) 100 = .ok (h, stale)
+    ∧ dumpFrameE .turtlemd .other [] h (7, some i) 100 = .ok (h, stale)
+    ∧ dumpFrameE .turtlemd .other [] h0 (7, some i) 100 = .error .nofile
+    ∧ dumpFrameE .lammps .other [] h (7, some i) 100 = .error .index
+    ∧ dumpFrameE .ase .other [] h (7, some i) 100 = .error .index
+    ∧ dumpFrameE .gromacs .trr [] h (7, some i) 100 = .error .value
+    ∧ dumpFrameE .gromacs .g96 [] h (7, some i) 100 = .ok (h.writeFile 100 [fr], fr) := by
+  have hi' : ([fr] : List Frame)[i]? = none := by
+    cases i with
+    | zero => omega
+    | succ k => simp
+  simp [dumpFrameE, extractFrame, hi', Heap.readFile, Heap.writeFile, readConf]
+
+/-- a multi-frame file referenced with index `None` is copied whole; ASE then reads its LAST image, the others the
+    first -/
+example (f0 f1 : Frame) :
+    let h : Heap := { systems := [], objs := [], files := [(7, [f0, f1])] }
+    dumpFrameE .ase .other [] h (7, none) 100 = .ok (h.writeFile 100 [f0, f1], f1)
+    ∧ dumpFrameE .lammps .other [] h (7, none) 100 = .ok (h.writeFile 100 [f0, f1], f0) := by
+  constructor <;> simp [dumpFrameE, Heap.readFile, Heap.writeFile, readConf]
+
+/-- on every input the engine-blind `Vel.dumpFrame` (§6) accepts with an index, the engine-aware flow of CP2K,
+    LAMMPS, ASE and TurtleMD reads the same frame (the old statements carry over) -/
+theorem dumpFrameE_agrees_with_dumpFrame (e : Engine) (top : List Nat) (h : Heap) (src i conf : Nat)
+    (h2 : Heap) (fr : Frame) (he : e ≠ .gromacs)
+    (hd : dumpFrame h (src, some i) conf = .ok (h2, fr)) :
+    dumpFrameE e .other top h (src, some i) conf = .ok (h2, fr) := by
+  unfold dumpFrame at hd
+  split at hd
+  · cases hd
+  · rename_i frames hfr
+    simp only at hd
+    split at hd
+    · cases hd
+    · rename_i fr' hfr'
+      cases hd
+      cases e <;> simp_all [dumpFrameE, extractFrame, readFile_writeFile_self, readConf]
+
+end FileFlow
 
 end Infretis.C16
